@@ -2,7 +2,7 @@
 """Determinism proof: every engine, N seeds, each executed twice in different worker processes and at
 two worker counts; the event-log / history / step hashes must agree.  Exit 0 iff no divergence.
 
-usage: tools/determinism.py [N] [engine ...]      engines: procsim handlesim simrt ksim
+usage: tools/determinism.py [N] [engine ...]      engines: procsim handlesim simrt ksim gsim
 """
 import json
 import os
@@ -53,6 +53,13 @@ def _ks_task(seed):
     return ("C21", seed, json.dumps([r["runs"], r["steps"], r["fired"], r["distinct"], r["conflicts"]]), [v["class"] for v in r["violations"]])
 
 
+def _gs_task(seed):
+    from lib import gcheck
+    r = gcheck.explore_kernel(seed, 4)
+    return ("C20", seed, json.dumps([r["runs"], r["steps"], r["fired"], r["distinct"], sorted(r.get("rejected", {}))]),
+            [(v.get("mode"), v["class"]) for v in r["violations"]])
+
+
 def run(engine, n):
     from lib import pscheck
     tasks = []
@@ -77,6 +84,11 @@ def run(engine, n):
         tcheck.ensure_engine()
         fn = _ts_task
         tasks = [common.run_seed(7, i, "C30") for i in range(n)]
+    elif engine == "gsim":
+        from lib import gcheck
+        gcheck.ensure_engine()
+        fn = _gs_task
+        tasks = [common.run_seed(7, i, "C20") for i in range(n)]
     elif engine == "ksim":
         from lib import kcheck
         kcheck.ensure_engine()
@@ -102,7 +114,7 @@ def run(engine, n):
 
 if __name__ == "__main__":
     n = int(sys.argv[1]) if len(sys.argv) > 1 else 100
-    engines = sys.argv[2:] or ["handlesim", "simrt", "ksim", "procsim"]
+    engines = sys.argv[2:] or ["handlesim", "simrt", "ksim", "gsim", "procsim"]
     tot = 0
     for e in engines:
         tot += run(e, n)
